@@ -74,6 +74,13 @@ def state_bases(env, n, tier):
         c.add(qubit.S(), 4)
         c.add(qubit.T(), 0)
         yield "T.S.GHZ", c
+    if env.mode == "native" and n <= 2:
+        # base circuits whose heralds were declared DIRECTLY on them (Circuit.herald), below / between / above the qubit modes
+        from vf.tasks.t_history import U as _haar
+        for hm, ph in ((0, 0), (n, 0), (2 * n, 0), (1, 1)):
+            c = lw.Unitary(_haar(2 * n + 1, 3 + hm))
+            c.herald(ph, hm)
+            yield f"generic {2 * n + 1}-mode unitary with herald({ph}, {hm}) set on the base circuit", c
     if env.mode == "native":
         # states with tiny but non-zero Pauli expectations / populations (1e-3 ... 1e-7): nothing may be rounded away
         for eps in (6e-4, 3e-5, 1e-7):
